@@ -1,122 +1,15 @@
 /-
-  The PINNED `operator*=` (mulAsIs) is exact when the right operand has at most one limb — the only way `parse`
-  uses it (`scale * digit`, `scale *= 10`) — and the decimal branch of `parse` yields the integer its digit
-  string denotes.
+  The decimal branch of `parse` (`value += scale * digit; scale *= 10`) yields the integer its digit string denotes.
 -/
 import UVerifProofs.Lemmas.ElasticPrint
 
 namespace UVerif.EInt
 
-/-- rows of the pinned loop against a ONE-limb right operand: the carry of row i enters row i+1 = limb i+rl. -/
-theorem mulRowsAsIs_single (w r0 : Nat) : ∀ (bs : List Nat) (i : Nat) (acc : List Nat) (seg : Nat),
-    toNat w (mulRowsAsIs w [r0] bs i acc seg).1 + (2 ^ w) ^ (i + bs.length) * (mulRowsAsIs w [r0] bs i acc seg).2
-      = toNat w acc + (2 ^ w) ^ i * (seg + toNat w bs * r0)
-  | [], i, acc, seg => by simp [mulRowsAsIs, toNat]
-  | bi :: bs, i, acc, seg => by
-    have hrow := mulRow_spec w bi i [r0] 0 acc seg
-    have ih := mulRowsAsIs_single w r0 bs (i + 1) (mulRow w bi i [r0] 0 acc seg).1 (mulRow w bi i [r0] 0 acc seg).2
-    simp only [mulRowsAsIs, List.length_cons, toNat]
-    simp only [Nat.add_zero, List.length_singleton, toNat, Nat.mul_zero] at hrow
-    have e1 : i + (bs.length + 1) = i + 1 + bs.length := by omega
-    rw [e1, ih, pow_succ]
-    rw [pow_succ] at hrow
-    generalize (2 ^ w) ^ i = P at *
-    generalize toNat w (mulRow w bi i [r0] 0 acc seg).1 = T at *
-    generalize (mulRow w bi i [r0] 0 acc seg).2 = S at *
-    have h2 : P * 2 ^ w * (S + toNat w bs * r0) = P * 2 ^ w * S + P * (2 ^ w * toNat w bs) * r0 := by ring
-    have h3 : P * (seg + (bi + 2 ^ w * toNat w bs) * r0) = P * (seg + bi * r0) + P * (2 ^ w * toNat w bs) * r0 := by ring
-    linarith [hrow, h2, h3]
-
-theorem mulRowsAsIs_single_shape (w r0 : Nat) (hr0 : r0 < 2 ^ w) : ∀ (bs : List Nat) (i : Nat) (acc : List Nat) (seg : Nat),
-    LimbsOk w bs → LimbsOk w acc → seg < 2 ^ w → acc.length ≤ i →
-    (mulRowsAsIs w [r0] bs i acc seg).1.length = (if bs = [] then acc.length else i + bs.length) ∧
-    LimbsOk w (mulRowsAsIs w [r0] bs i acc seg).1 ∧ (mulRowsAsIs w [r0] bs i acc seg).2 < 2 ^ w
-  | [], i, acc, seg, _, ha, hs, _ => by simp [mulRowsAsIs]; exact ⟨ha, hs⟩
-  | bi :: bs, i, acc, seg, hb, ha, hs, hl => by
-    have ⟨hbi, hbs⟩ := limbsOk_cons.mp hb
-    have hok := mulRow_ok w bi i hbi [r0] 0 acc seg (limbsOk_cons.mpr ⟨hr0, limbsOk_nil w⟩) ha hs
-    have hlen := mulRow_length w bi i [r0] 0 acc seg
-    simp only [List.cons_ne_nil, if_false, Nat.add_zero, List.length_singleton] at hlen
-    have hlen' : (mulRow w bi i [r0] 0 acc seg).1.length = i + 1 := by rw [hlen]; omega
-    have ih := mulRowsAsIs_single_shape w r0 hr0 bs (i + 1) _ _ hbs hok.1 hok.2 (by omega)
-    simp only [mulRowsAsIs, List.cons_ne_nil, if_false, List.length_cons]
-    refine ⟨?_, ih.2⟩
-    rw [ih.1]
-    split
-    · rename_i h; subst h; simp [hlen']
-    · omega
-
-/-- the pinned `operator*=` with a right operand of at most one limb: exact and canonical. -/
-theorem mulAsIs_single (w : Nat) (x r : EI) (hx : Canon w x) (hr : Canon w r) (h1 : r.limbs.length ≤ 1) :
-    toInt w (mulAsIs w x r) = toInt w x * toInt w r ∧ Canon w (mulAsIs w x r) := by
-  unfold mulAsIs
-  by_cases hz : (isZero x || isZero r) = true
-  · simp only [hz, if_true]
-    have : x.limbs = [] ∨ r.limbs = [] := by
-      rcases Bool.or_eq_true_iff.mp hz with h | h
-      · exact Or.inl ((isZero_canon hx).mp h)
-      · exact Or.inr ((isZero_canon hr).mp h)
-    refine ⟨?_, limbsOk_nil w, by simp [NoLeadingZero]⟩
-    rcases this with h | h <;> simp [toInt, h, toNat]
-  · simp only [hz, Bool.false_eq_true, if_false]
-    have hxne : x.limbs ≠ [] := by
-      intro h; apply hz; simp [(isZero_canon hx).mpr h]
-    have hrne : r.limbs ≠ [] := by
-      intro h; apply hz; simp [(isZero_canon hr).mpr h]
-    obtain ⟨r0, hr0⟩ : ∃ r0, r.limbs = [r0] := by
-      rcases hl : r.limbs with _ | ⟨v, _ | _⟩
-      · exact absurd hl hrne
-      · exact ⟨v, rfl⟩
-      · rw [hl] at h1; simp at h1
-    have hr0lt : r0 < 2 ^ w := hr.1 r0 (by simp [hr0])
-    have hr0ne : r0 ≠ 0 := by
-      have := hr.2; rw [hr0] at this; simpa [NoLeadingZero] using this
-    have hv := mulRowsAsIs_single w r0 x.limbs 0 [] 0
-    obtain ⟨s1, s2, s3⟩ := mulRowsAsIs_single_shape w r0 hr0lt x.limbs 0 [] 0 hx.1 (limbsOk_nil w) (Nat.two_pow_pos w) (by simp)
-    simp only [hxne, if_false, Nat.zero_add] at s1
-    simp only [toNat, pow_zero, Nat.one_mul, Nat.zero_add] at hv
-    rw [hr0]
-    simp only [List.length_singleton, Nat.add_sub_cancel]
-    set p := mulRowsAsIs w [r0] x.limbs 0 [] 0 with hp
-    have hRv : toNat w r.limbs = r0 := by simp [hr0, toNat]
-    by_cases hc : p.2 = 0
-    · simp only [hc, ne_eq, not_true_eq_false, if_false]
-      rw [hc] at hv
-      have hval : toNat w p.1 = toNat w x.limbs * r0 := by simpa using hv
-      refine ⟨?_, s2, ?_⟩
-      · simp only [toInt, hval, hr0, toNat, Nat.mul_zero, Nat.add_zero]
-        cases x.sign <;> cases r.sign <;> simp
-      · apply noLeadingZero_of_ge w s2
-        intro _
-        rw [hval, s1]
-        have h1 := toNat_ge_of_noLeadingZero w x.limbs hxne hx.2
-        calc (2 ^ w) ^ (x.limbs.length - 1) ≤ toNat w x.limbs := h1
-          _ = toNat w x.limbs * 1 := (Nat.mul_one _).symm
-          _ ≤ toNat w x.limbs * r0 := Nat.mul_le_mul_left _ (by omega)
-    · simp only [hc, ne_eq, not_false_eq_true, if_true]
-      rw [Nat.mod_eq_of_lt s3, ← s1, setblock_at_length]
-      refine ⟨?_, ?_, ?_⟩
-      · simp only [toInt, toNat_append, toNat, Nat.mul_zero, Nat.add_zero, hr0]
-        rw [s1] 
-        have : toNat w p.1 + (2 ^ w) ^ x.limbs.length * p.2 = toNat w x.limbs * r0 := hv
-        have hI : ((toNat w p.1 : Nat) : Int) + (((2 ^ w) ^ x.limbs.length * p.2 : Nat) : Int) = ((toNat w x.limbs * r0 : Nat) : Int) := by
-          exact_mod_cast this
-        push_cast at hI
-        cases x.sign <;> cases r.sign <;> simp <;> linarith [hI]
-      · intro y hy
-        rcases List.mem_append.mp hy with hy | hy
-        · exact s2 y hy
-        · simp at hy; rw [hy]; exact s3
-      · simp [NoLeadingZero, hc]
-
-/-- whichever loop `EInt.mul` is switched to (pinned `mulAsIs` or repaired `mulFixed`), it is exact and canonical
-    for a right operand of at most one limb. The proof tries both, so flipping the switch does not break it. -/
-theorem mul_single (w : Nat) (x r : EI) (hx : Canon w x) (hr : Canon w r) (h1 : r.limbs.length ≤ 1) :
+/-- `operator*=` is exact and canonical (here used for a right operand of at most one limb: `scale * digit`, `scale *= 10`). -/
+theorem mul_single (w : Nat) (x r : EI) (hx : Canon w x) (hr : Canon w r) (_h1 : r.limbs.length ≤ 1) :
     toInt w (EInt.mul w x r) = toInt w x * toInt w r ∧ Canon w (EInt.mul w x r) := by
   unfold EInt.mul
-  first
-    | exact mulAsIs_single w x r hx hr h1
-    | exact mulFixed_spec w x r hx hr
+  exact mulFixed_spec w x r hx hr
 
 /-! ### parse (decimal branch) -/
 
